@@ -484,7 +484,8 @@ def explore_c13(rng, tier, res, deep=False):
                                        "expected": "result or JSONPathError", "what": "evaluation raised a non-JSONPath exception"})
     # built-in function calls with arguments of every kind in every position (literals of each type, singular queries
     # that select a string / number / boolean / null / array / object / nothing, nested calls), on children of every kind
-    kinds = ["ab", "a.*", "[", 1, 1.5, True, None, [], ["a"], {}, {"a": "ab"}]
+    kinds = ["ab", "a.*", "[", 1, 1.5, True, None, [], ["a"], {}, {"a": "ab"}, {"x": 1}, {"y": 1}, [{"x": 1}], [{"y": 2}], {"x": {"p": 1}}, {"x": {"q": 1}},
+             2**53 + 1, 1e308, -0.0, "", [[]], [None]]
     kdocs = [[{"a": x, "b": y} for x in kinds] + [{"a": y}, {"b": y}, y] for y in kinds]
     kdocs.append({"p": "a", "k": [{"a": "ab"}, {"a": 1}, {}]})
     kdocs.append({"p": [], "k": {"x": {"a": "ab", "b": {}}}})
@@ -497,6 +498,8 @@ def explore_c13(rng, tier, res, deep=False):
         fq += [f"$..[?{f}(@.a, $.p)]", f"$.k[?!{f}(@.a, $.p)]", f"$[?{f}(@.a, @.b) || {f}(@.b, @.a)]"]
     for a1 in vargs:
         fq += [f"$[?length({a1}) == 1]", f"$[?length({a1}) == length(@.b)]"]
+    for op in ("==", "!=", "<", "<=", ">", ">="):
+        fq += [f"$[?@.a {op} @.b]", f"$[?@ {op} $[0]]", f"$[?value(@.a) {op} @.b]", f"$[?@.a {op} length(@.b)]", f"$..[?@.a {op} $[1].b]"]
     for a1 in ["@", "@.a", "@.*", "@..a", "$", "$.p", "$..*", "@[?@.a]"]:
         fq += [f"$[?count({a1}) == 1]", f"$[?value({a1}) == 'ab']", f"$[?match(value({a1}), value({a1}))]"]
     for q in fq:
